@@ -140,7 +140,7 @@ func propC01(w *World, r *Report, tier string) {
 	sa.report(r, "C01")
 	r.Expect("safe.entries", 3)
 	r.ExpectCensus("safe.loop", sa.loopCensus(), 44)
-	r.Expect("safe.slice", 8)
+	r.Expect("safe.slice", 1) // style-dependent count: see safe.entries
 	// allocation bound
 	var maxFixed int64
 	nvar := 0
